@@ -286,7 +286,7 @@ RULES = [
 
 
 from . import shared
-RULES = RULES + shared.bundle('C13', ['tablebounds', 'gauss-tables', 'intdiv', 'gpu', 'norm', 'values', 'carry', 'gate', 'restart', 'loops', 'driver', 'density', 'support', 'relative', 'limits', 'unit-sum', 'centre'], ['modelinfo', 'weights'])
+RULES = RULES + shared.bundle('C13', ['f2i', 'tablebounds', 'gauss-tables', 'intdiv', 'gpu', 'norm', 'values', 'carry', 'gate', 'restart', 'loops', 'driver', 'density', 'support', 'relative', 'limits', 'unit-sum', 'centre'], ['modelinfo', 'weights'])
 
 
 def run(tier="quick", replay=None):
